@@ -372,6 +372,12 @@ sts_some_aux(Source *source, Sink *sink, ByteBuffer *b)
 {
     void *buf = b->data + b->offset;
     const size_t n = byte_buffer_rest(b);
+    if (n == 0u) {
+        /* An auxiliary buffer without a single octet of room cannot move
+         * anything. Asking the source for nothing is answered with "nothing
+         * moved", which the counted and the draining loops repeat on. */
+        return -EINVAL;
+    }
     const ssize_t rc = source_get_chunk_atmost(source, buf, n);
     return (rc <= 0) ? rc : sink_put_chunk(sink, buf, rc);
 }
